@@ -394,3 +394,24 @@ def r5(ctx):
         yield VIOL("C09-R5", "canonicalize_uri_path/absolute-test-skipped", "%d of %d Ok results are reached without the `starts_with('/')` test having succeeded (and are not the empty / \"/\" case): a relative path is canonicalised in that mode instead of being refused" % (len(bad), len(oks)), where=b.span_of_block(bad[0]))
     else:
         yield PASS("C09-R5", "canonicalize_uri_path/absolute-test", "all %d Ok results: special case (empty or \"/\") or after starts_with('/') == true" % len(oks), [site(b, ob, "Ok") for ob, _, _ in oks])
+
+
+@M.rule("C09-R6", "the component list only loses dot segments: nothing is added to it except a normalised component of the path itself")
+def r6(ctx):
+    """Dot-segment resolution removes `.` / `..` (and the component before `..`) and overwrites a component with its
+    normalised form; an element that does not come from the path - an empty string pushed to keep a trailing slash, a
+    constant - changes the canonical path for inputs whose other spelling (`/a` vs `/a/b/..`) resolves to the same path."""
+    b = ctx.fn(CUP)
+    grow = b.calls(r"Vec::<T, A>::(push|insert|extend|append|resize\w*|extend_from_slice)$|Extend::extend$")
+    vecs = [(bi, t) for bi, t in grow if re.search(r"Vec<std::string::String>|Vec::<std::string::String>", t.get("resolved_full", "") + " ".join(t.get("arg_tys", [])))]
+    ctx.count(max(1, len(vecs)))
+    bad = []
+    for bi, t in vecs:
+        sl = b.slice_op(t["args"][-1])
+        from_path = sl.has_call(r"canonical::normalize_uri_path_component$") and b.in_cycle(bi)
+        if not from_path:
+            bad.append((bi, t))
+    if bad:
+        yield VIOL("C09-R6", "canonicalize_uri_path/component-added", "`%s` adds an element to the component list that is not a normalised component taken in the resolution loop (%d site(s)): the canonical path gains a segment the request path does not have" % (bad[0][1]["callee"].split("::")[-1], len(bad)), where=b.span_of_block(bad[0][0]))
+    else:
+        yield PASS("C09-R6", "canonicalize_uri_path/components-only-shrink", "%d growth site(s) on the component list, each a normalised component inside the loop" % len(vecs), [])
